@@ -130,33 +130,33 @@ Section Mono.
 End Mono.
 
 (* ---- the statement forms CLiteProps.v has no unfolding lemma for *)
-Definition sw_has (z : Z) (segs : list (list (option Z) * stmt)) : bool :=
+Definition swx_has (z : Z) (segs : list (list (option Z) * stmt)) : bool :=
   existsb (fun seg => existsb (fun l => match l with Some k => k =? z | None => false end) (fst seg)) segs.
-Definition sw_hit (z : Z) (segs : list (list (option Z) * stmt)) (labs : list (option Z)) : bool :=
-  existsb (fun l => match l with Some k => sw_has z segs && (k =? z) | None => negb (sw_has z segs) end) labs.
+Definition swx_hit (z : Z) (segs : list (list (option Z) * stmt)) (labs : list (option Z)) : bool :=
+  existsb (fun l => match l with Some k => swx_has z segs && (k =? z) | None => negb (swx_has z segs) end) labs.
 Section SwRun.
   Variable go : stmt -> state -> outcome.
   Variable hit : list (option Z) -> bool.
-  Fixpoint sw_run (l : list (list (option Z) * stmt)) (started : bool) (st : state) : outcome :=
+  Fixpoint swx_run (l : list (list (option Z) * stmt)) (started : bool) (st : state) : outcome :=
     match l with
     | [] => ONormal st
     | (labs, s0) :: r =>
         if started || hit labs then
           match go s0 st with
-          | ONormal st2 => sw_run r true st2
+          | ONormal st2 => swx_run r true st2
           | OBreak st2 => ONormal st2
           | o => o
           end
-        else sw_run r false st
+        else swx_run r false st
     end.
 End SwRun.
 Section ExecLemmas2.
   Variable call : nat -> list val -> mem -> res (val * mem).
-  Lemma exec_switch f e segs st :
+  Lemma exec_switchx f e segs st :
     exec call f (SSwitch e segs) st =
     match eval call e st with
     | Ok (v, st1) => match as_int v with
-                     | Ok z => sw_run (exec call f) (sw_hit z segs) segs false st1
+                     | Ok z => swx_run (exec call f) (swx_hit z segs) segs false st1
                      | Err x => OErr x
                      end
     | Err x => OErr x
@@ -193,12 +193,12 @@ Section MonoExec.
   Lemma eval_opt_mono e st r : eval_opt c1 e st = Ok r -> eval_opt c2 e st = Ok r.
   Proof. destruct e; cbn [eval_opt]; [apply (eval_mono c1 c2 Hle)|auto]. Qed.
 
-  Lemma sw_run_mono (go1 go2 : stmt -> state -> outcome) hit l :
+  Lemma swx_run_mono (go1 go2 : stmt -> state -> outcome) hit l :
     Forall (fun seg => forall st o, go1 (snd seg) st = o -> ok_out o -> go2 (snd seg) st = o) l ->
-    forall started st o, sw_run go1 hit l started st = o -> ok_out o -> sw_run go2 hit l started st = o.
+    forall started st o, swx_run go1 hit l started st = o -> ok_out o -> swx_run go2 hit l started st = o.
   Proof.
     induction 1 as [|[labs s0] r Hx Hr IH]; intros started st o H Ho; [exact H|].
-    cbn [sw_run snd] in *. destruct (started || hit labs); [|exact (IH _ _ _ H Ho)].
+    cbn [swx_run snd] in *. destruct (started || hit labs); [|exact (IH _ _ _ H Ho)].
     destruct (go1 s0 st) eqn:E; try (rewrite (Hx st _ E I); first [exact H|exact (IH _ _ _ H Ho)]). subst o; destruct Ho.
   Qed.
 
@@ -219,9 +219,9 @@ Section MonoExec.
         destruct (eval c1 e st) as [[v s]|?] eqn:E; [rewrite (eval_mono c1 c2 Hle _ _ _ E); exact H|subst o; destruct Ho].
       + exact H.
       + exact H.
-      + rewrite exec_switch in H |- *. destruct (eval c1 e st) as [[v s]|?] eqn:E; [rewrite (eval_mono c1 c2 Hle _ _ _ E)|subst o; destruct Ho].
+      + rewrite exec_switchx in H |- *. destruct (eval c1 e st) as [[v s]|?] eqn:E; [rewrite (eval_mono c1 c2 Hle _ _ _ E)|subst o; destruct Ho].
         destruct (as_int v) as [z|?]; [|subst o; destruct Ho].
-        refine (sw_run_mono _ _ _ _ _ _ _ _ H Ho). clear H.
+        refine (swx_run_mono _ _ _ _ _ _ _ _ H Ho). clear H.
         induction segs as [|[labs s0] r IHr]; constructor; [intros st0 o0; apply IHs|exact IHr].
     - fix IHs 1. intros s st o H Ho. destruct s as [|e|s1 s2|c sa sb|c sb|sb c|c stp sb|oe| | |e segs].
       + exact H.
@@ -248,9 +248,9 @@ Section MonoExec.
         destruct (eval c1 e st) as [[v s]|?] eqn:E; [rewrite (eval_mono c1 c2 Hle _ _ _ E); exact H|subst o; destruct Ho].
       + exact H.
       + exact H.
-      + rewrite exec_switch in H |- *. destruct (eval c1 e st) as [[v s]|?] eqn:E; [rewrite (eval_mono c1 c2 Hle _ _ _ E)|subst o; destruct Ho].
+      + rewrite exec_switchx in H |- *. destruct (eval c1 e st) as [[v s]|?] eqn:E; [rewrite (eval_mono c1 c2 Hle _ _ _ E)|subst o; destruct Ho].
         destruct (as_int v) as [z|?]; [|subst o; destruct Ho].
-        refine (sw_run_mono _ _ _ _ _ _ _ _ H Ho). clear H.
+        refine (swx_run_mono _ _ _ _ _ _ _ _ H Ho). clear H.
         induction segs as [|[labs s0] r IHr]; constructor; [intros st0 o0; apply IHs|exact IHr].
   Qed.
 End MonoExec.
